@@ -227,7 +227,17 @@ func (v *FnV) sp(st *State, e *SExpr, sc *Scope) Value {
 			}
 		}
 		if e.Op == "forall" {
-			return Value{T: tBool, S: fmt.Sprintf("(forall (%s) %s)", strings.Join(binders, " "), sImp(sAnd(ranges...), body))}
+			inner := sImp(sAnd(ranges...), body)
+			if len(e.Vars) == 1 && !st.quiet && !strings.Contains(inner, "(forall") && !strings.Contains(inner, "(exists") {
+				if pats := inferPatterns(inner, e.Vars[0]+"!q"); len(pats) > 0 {
+					var ps []string
+					for _, p := range pats {
+						ps = append(ps, ":pattern ("+p+")")
+					}
+					return Value{T: tBool, S: fmt.Sprintf("(forall (%s) (! %s %s))", strings.Join(binders, " "), inner, strings.Join(ps, " "))}
+				}
+			}
+			return Value{T: tBool, S: fmt.Sprintf("(forall (%s) %s)", strings.Join(binders, " "), inner)}
 		}
 		return Value{T: tBool, S: fmt.Sprintf("(exists (%s) %s)", strings.Join(binders, " "), sAnd(append(ranges, body)...))}
 	case "field":
@@ -758,6 +768,18 @@ func (v *FnV) spCall(st *State, e *SExpr, sc *Scope) Value {
 		a := arg(0)
 		n, d := arg(1), arg(2)
 		return Value{T: tBool, S: sEq(sx("*", v.bigRat(st, a.S), sx("to_real", d.S)), sx("to_real", n.S))}
+	case "samekey":
+		// two strings are the same map key, i.e. have equal contents (skey is injective on contents)
+		v.c.glob("skey", "(declare-fun skey (Str) Int)",
+			"(assert (forall ((a!k Str) (b!k Str)) (! (= (str_eq a!k b!k) (= (skey a!k) (skey b!k))) :pattern ((skey a!k) (skey b!k)))))")
+		return Value{T: tBool, S: sEq(sx("skey", arg(0).S), sx("skey", arg(1).S))}
+	case "hasprefix":
+		// strings.HasPrefix(s, p), as modelled for the code
+		a, b := arg(0), arg(1)
+		return Value{T: tBool, S: sAnd(sGe(sx("slen", a.S), sx("slen", b.S)), sx("str_eq", fmt.Sprintf("(mkstr (sbase %s) (soff %s) (slen %s))", a.S, a.S, b.S), b.S))}
+	case "recvid":
+		// identity of an interface value's dynamic (pointer) value, as recorded by callfn for interface receivers
+		return Value{T: nil, S: sx("vint", arg(0).S)}
 	case "ipow":
 		// a^b for b >= 0 (the function behind the model of big.Int.Exp)
 		v.c.ipowFns()
